@@ -5,6 +5,7 @@
     (instance obligations, vm_compute).  The FGD grammar itself is not modelled (search only). *)
 From Coq Require Import List NArith Arith Bool String.
 From SV Require Import Fmt.LongString Fmt.LongStringProofs Fmt.FgdBin Fmt.FgdBinProofs SM.LazyDb SM.LazyDbProofs.
+From SV Require Import Fmt.FgdBinEnt Fmt.FgdBinEntProofs Fmt.FgdLine Fmt.FgdLineProofs Fmt.FgdLineTextProofs Fmt.FgdBody Fmt.FgdBodyProofs.
 From SV Require Import Gen.FgdConsts_gen.
 Import ListNotations.
 Open Scope N_scope.
@@ -94,6 +95,178 @@ Example c16_hypotheses_satisfiable :
   /\ stops [(110, 10)] [SPACE; 58; SPACE; 49; LF] = true.
 Proof. repeat split. Qed.
 
+(** * The lines that carry the fields (token level, Fmt/FgdLine.v) *)
+(** [line_cfg]: the decisive branches of KVDef.export / EntityDef.export read from the source ([gen_line_cfg]);
+    the hypotheses on [vt_lookup], [io_lookup], [rt_lookup], [undec] are checked on the real tables (data obligations),
+    [tags_wf] = the tags are in the normal form read_tags produces and pass validate_tags. *)
+Definition line_cfg_ok (c : line_cfg) : bool :=
+  (colons_before_desc_without_default c =? 2)%nat && bool_default_filled c && res_block_if_defined c.
+
+(** Keyvalue lines without a value list: whatever the tags, readonly / report, the split of display name and
+    description into '+' sections, with or without default and description, KVDef._parse reads back the same name,
+    tags, type, flags, display name, default and description and stops at the end of the line. *)
+Theorem c16_kv_line_roundtrip :
+  forall (tag_norm : str -> str) (tags_valid : list str -> bool) (vt : Type) (vt_text : vt -> str) (vt_lookup : str -> option (bool * vt))
+         (vt_is_bool vt_is_flags vt_is_choices : vt -> bool) (dec : N -> str) (undec : str -> option N) (pow2 : N -> bool) (cfg : line_cfg),
+  (forall v, vt_lookup (vt_text v) = Some (false, v)) -> colons_before_desc_without_default cfg = 2%nat ->
+  forall (label custom : bool) (k : kvline vt) (rest : list tok),
+  tags_wf tag_norm tags_valid (l_tags vt k) -> vt_is_flags (l_type vt k) = false -> vt_is_choices (l_type vt k) = false ->
+  l_list vt k = NoList -> l_disp vt k <> [] ->
+  yes_no vt vt_is_bool (l_type vt k) (default_written vt vt_is_bool cfg k) = default_written vt vt_is_bool cfg k ->
+  ends_line rest ->
+  kv_parse tag_norm tags_valid vt vt_lookup vt_is_bool vt_is_flags vt_is_choices dec undec pow2 (l_name vt k)
+    (List.tl (kv_toks vt vt_text vt_is_bool vt_is_flags dec cfg label custom k) ++ rest)
+  = Some (kv_norm vt vt_is_bool cfg custom k NoList, rest).
+Proof. exact kv_plain_roundtrip. Qed.
+
+(** Choices keyvalues with their value list (value, display name in any split, tags per item) *)
+Theorem c16_kv_choices_roundtrip :
+  forall (tag_norm : str -> str) (tags_valid : list str -> bool) (vt : Type) (vt_text : vt -> str) (vt_lookup : str -> option (bool * vt))
+         (vt_is_bool vt_is_flags vt_is_choices : vt -> bool) (dec : N -> str) (undec : str -> option N) (pow2 : N -> bool) (cfg : line_cfg),
+  (forall v, vt_lookup (vt_text v) = Some (false, v)) -> colons_before_desc_without_default cfg = 2%nat ->
+  forall (label custom : bool) (k : kvline vt) (items : list (str * list str * list str)) (rest : list tok),
+  tags_wf tag_norm tags_valid (l_tags vt k) -> vt_is_flags (l_type vt k) = false -> vt_is_choices (l_type vt k) = true ->
+  l_list vt k = Choices items -> Forall (ciwf tag_norm tags_valid) items -> l_disp vt k <> [] ->
+  yes_no vt vt_is_bool (l_type vt k) (default_written vt vt_is_bool cfg k) = default_written vt vt_is_bool cfg k ->
+  kv_parse tag_norm tags_valid vt vt_lookup vt_is_bool vt_is_flags vt_is_choices dec undec pow2 (l_name vt k)
+    (List.tl (kv_toks vt vt_text vt_is_bool vt_is_flags dec cfg label custom k) ++ rest)
+  = Some (kv_norm vt vt_is_bool cfg custom k (Choices (map (cires custom) items)), TNl :: rest).
+Proof. exact kv_choices_roundtrip. Qed.
+
+(** Spawnflags keyvalues: every item with its value, name (the generated `[n]` label removed again), default and tags,
+    for names that do not start with a blank and — when no labels are written — do not themselves start with `[n]` *)
+Theorem c16_kv_flags_roundtrip :
+  forall (tag_norm : str -> str) (tags_valid : list str -> bool) (vt : Type) (vt_text : vt -> str) (vt_lookup : str -> option (bool * vt))
+         (vt_is_bool vt_is_flags vt_is_choices : vt -> bool) (dec : N -> str) (undec : str -> option N) (pow2 : N -> bool) (cfg : line_cfg),
+  (forall v, vt_lookup (vt_text v) = Some (false, v)) -> (forall n, undec (dec n) = Some n) ->
+  colons_before_desc_without_default cfg = 2%nat ->
+  forall (label custom : bool) (k : kvline vt) (items : list (N * list str * bool * list str)) (rest : list tok),
+  tags_wf tag_norm tags_valid (l_tags vt k) -> vt_is_flags (l_type vt k) = true -> vt_is_choices (l_type vt k) = false ->
+  l_list vt k = Flags items -> Forall (fiwf tag_norm tags_valid dec pow2 label) items ->
+  default_written vt vt_is_bool cfg k = [] -> List.concat (l_desc vt k) = [] ->
+  kv_parse tag_norm tags_valid vt vt_lookup vt_is_bool vt_is_flags vt_is_choices dec undec pow2 (l_name vt k)
+    (List.tl (kv_toks vt vt_text vt_is_bool vt_is_flags dec cfg label custom k) ++ rest)
+  = Some (mk_kvl vt (l_name vt k) (seen_tags custom (l_tags vt k)) (l_type vt k) (l_ro vt k) (l_report vt k)
+                 [l_name vt k] [] [[]] (Flags (map (fires custom) items)), TNl :: rest).
+Proof. exact kv_flags_roundtrip. Qed.
+
+(** input / output lines: name, tags, the decayed type, the description *)
+Theorem c16_io_line_roundtrip :
+  forall (tag_norm : str -> str) (tags_valid : list str -> bool) (vt : Type) (io_text : vt -> str) (io_lookup : str -> option vt)
+         (io_decay : vt -> vt),
+  (forall v, io_lookup (io_text v) = Some (io_decay v)) ->
+  forall (custom : bool) (o : ioline vt) (rest : list tok),
+  tags_wf tag_norm tags_valid (o_tags vt o) -> ends_line rest ->
+  io_parse tag_norm tags_valid vt io_lookup (io_toks vt io_text custom o ++ rest)
+  = Some (mk_iol vt (o_name vt o) (seen_tags custom (o_tags vt o)) (io_decay (o_type vt o)) [List.concat (o_desc vt o)], rest).
+Proof. exact io_roundtrip. Qed.
+
+(** @resources (extended syntax): undefined stays undefined, a defined list — EMPTY OR NOT — comes back as that list *)
+Theorem c16_resources_roundtrip :
+  forall (tag_norm : str -> str) (tags_valid : list str -> bool) (cfg : line_cfg),
+  colons_before_desc_without_default cfg = 2%nat ->
+  forall (rt : Type) (rt_text : rt -> str) (rt_lookup : str -> option rt),
+  (forall t, rt_lookup (rt_text t) = Some t) ->
+  forall (res : option (list (rt * str * list str))) (rest : list tok),
+  res_block_if_defined cfg = true ->
+  match res with Some l => Forall (riwf tag_norm tags_valid rt) l | None => True end ->
+  res_read tag_norm tags_valid rt rt_lookup (res_toks cfg rt rt_text true res ++ TBrClose :: rest)
+  = Some (res, match res with Some _ => TNl :: TBrClose :: rest | None => TBrClose :: rest end).
+Proof. exact res_roundtrip. Qed.
+
+(** Character level and token level joined.  The STRING tokens of a text as _write_longstring writes it
+    ([token_sections]: Tokenizer._handle_string on every section): there is at least one, every section is a complete
+    string body, and the token values concatenate to the text. *)
+Theorem c16_longstring_token_sections : forall t excl, table_ok t excl = true -> forall cfg ext text, cfg_ok cfg = true ->
+  (ext = false -> std_safe text = true) ->
+  token_sections t excl cfg ext text <> []
+  /\ List.concat (token_sections t excl cfg ext text) = text
+  /\ Forall (fun sec => exists o, run t Plain sec = Some (Plain, o)) (sections cfg (fgd_escape t excl ext text)).
+Proof. exact token_sections_spec. Qed.
+
+(** ... so a keyvalue line whose display name and description went through _write_longstring — any length, any
+    characters (plain syntax: without quote, backslash, CR) — is parsed back to exactly that display name and that
+    description (plus name, tags, type, readonly, report, default). *)
+Theorem c16_kv_line_text_roundtrip :
+  forall (tag_norm : str -> str) (tags_valid : list str -> bool) (vt : Type) (vt_text : vt -> str) (vt_lookup : str -> option (bool * vt))
+         (vt_is_bool vt_is_flags vt_is_choices : vt -> bool) (dec : N -> str) (undec : str -> option N) (pow2 : N -> bool) (lcfg : line_cfg),
+  (forall v, vt_lookup (vt_text v) = Some (false, v)) -> colons_before_desc_without_default lcfg = 2%nat ->
+  forall t excl, table_ok t excl = true -> forall cfg, cfg_ok cfg = true ->
+  forall (label custom : bool) name tags ty ro rep disp dflt desc rest,
+  (custom = false -> std_safe disp = true /\ std_safe desc = true) ->
+  let k := mk_kvl vt name tags ty ro rep (token_sections t excl cfg custom disp) dflt (token_sections t excl cfg custom desc) NoList in
+  tags_wf tag_norm tags_valid tags -> vt_is_flags ty = false -> vt_is_choices ty = false ->
+  yes_no vt vt_is_bool ty (default_written vt vt_is_bool lcfg k) = default_written vt vt_is_bool lcfg k -> ends_line rest ->
+  kv_parse tag_norm tags_valid vt vt_lookup vt_is_bool vt_is_flags vt_is_choices dec undec pow2 name
+    (List.tl (kv_toks vt vt_text vt_is_bool vt_is_flags dec lcfg label custom k) ++ rest)
+  = Some (mk_kvl vt name (seen_tags custom tags) ty ro rep [disp] (default_written vt vt_is_bool lcfg k) [desc] NoList, rest).
+Proof. exact kv_line_text_roundtrip. Qed.
+
+(** The whole body of an entity (Fmt/FgdBody.v): the keyvalue, input and output lines in the order written — with the
+    blank / comment lines EntityDef.export puts between them —, the @resources block and the closing bracket are read
+    back by the loop of EntityDef.parse as the same keyvalues, inputs and outputs in the same order (normal forms: long
+    strings joined, I/O types decayed, no tags in the plain syntax) and the same resources.  [item_wf]: the line
+    conditions above, and no keyvalue is called input, output or @resources. *)
+Theorem c16_entity_body_roundtrip :
+  forall (tag_norm : str -> str) (tags_valid : list str -> bool) (vt : Type) (vt_text : vt -> str) (vt_lookup : str -> option (bool * vt))
+         (vt_is_bool vt_is_flags vt_is_choices : vt -> bool) (io_text : vt -> str) (io_lookup : str -> option vt) (io_decay : vt -> vt)
+         (dec : N -> str) (undec : str -> option N) (pow2 : N -> bool) (cfg : line_cfg) (rt : Type) (rt_text : rt -> str)
+         (rt_lookup : str -> option rt),
+  (forall v, vt_lookup (vt_text v) = Some (false, v)) -> (forall v, io_lookup (io_text v) = Some (io_decay v)) ->
+  (forall n, undec (dec n) = Some n) -> (forall t, rt_lookup (rt_text t) = Some t) ->
+  colons_before_desc_without_default cfg = 2%nat -> res_block_if_defined cfg = true ->
+  forall (label custom : bool) (items : list (nat * item vt)) (res : resources rt) (rest : list tok),
+  Forall (item_wf tag_norm tags_valid vt vt_is_bool vt_is_flags vt_is_choices dec pow2 cfg label) (map snd items) ->
+  match res with Some l => Forall (riwf tag_norm tags_valid rt) l | None => True end ->
+  body_read tag_norm tags_valid vt vt_lookup vt_is_bool vt_is_flags vt_is_choices io_lookup dec undec pow2 rt rt_lookup
+    (body_toks vt vt_text vt_is_bool vt_is_flags io_text dec cfg rt rt_text label custom items res ++ rest)
+  = Some (with_res vt rt (fold_left (add_item vt vt_is_bool io_decay cfg rt custom) (map snd items) (mk_body vt rt [] [] [] None))
+                   (if custom then res else None), rest).
+Proof. exact body_roundtrip. Qed.
+
+(** One concrete instance (non-vacuity, and the refutations of the other writer branches). *)
+Inductive xvt := XString | XBool | XFlags | XChoices.
+Definition x_text (v : xvt) : str := match v with XString => [115] | XBool => [98] | XFlags => [102] | XChoices => [99] end.
+Definition x_lookup (s : str) : option (bool * xvt) :=
+  match s with [115] => Some (false, XString) | [98] => Some (false, XBool) | [102] => Some (false, XFlags) | [99] => Some (false, XChoices) | _ => None end.
+Definition x_bool (v : xvt) := match v with XBool => true | _ => false end.
+Definition x_flags (v : xvt) := match v with XFlags => true | _ => false end.
+Definition x_choices (v : xvt) := match v with XChoices => true | _ => false end.
+Definition x_dec (n : N) : str := repeat 49 (N.to_nat n).      (* unary *)
+Definition x_undec (s : str) : option N := Some (N.of_nat (List.length s)).
+Definition x_cfg (colons : nat) (res_defined : bool) : line_cfg :=
+  {| colons_before_desc_without_default := colons; bool_default_filled := true; res_block_if_defined := res_defined |}.
+Definition x_kv : kvline xvt :=   (* key[A, +B](s) readonly : "di" + "sp" : : "de" + "sc"  — no default *)
+  mk_kvl xvt [107] [[65]; [43; 66]] XString true false [[100; 105]; [115; 112]] [] [[100; 101]; [115; 99]] NoList.
+Definition x_parse (colons : nat) : option (kvline xvt * list tok) :=
+  kv_parse (fun t => t) (fun _ => true) xvt x_lookup x_bool x_flags x_choices x_dec x_undec (fun _ => true) [107]
+    (List.tl (kv_toks xvt x_text x_bool x_flags x_dec (x_cfg colons true) true true x_kv) ++ [TStr [110]]).
+Example c16_kv_line_example :
+  x_parse 2 = Some (mk_kvl xvt [107] [[65]; [43; 66]] XString true false [[100; 105; 115; 112]] [] [[100; 101; 115; 99]] NoList, [TStr [110]])
+  /\ (forall v, x_lookup (x_text v) = Some (false, v)) /\ (forall n, x_undec (x_dec n) = Some n).
+Proof.
+  split; [vm_compute; reflexivity|]. split; [intros []; reflexivity|].
+  intros n. unfold x_undec, x_dec. rewrite repeat_length, N2Nat.id. reflexivity.
+Qed.
+(** with a single ':' before the description of a keyvalue without default, the description is read as the default *)
+Example c16_one_colon_refuted :
+  x_parse 1 = Some (mk_kvl xvt [107] [[65]; [43; 66]] XString true false [[100; 105; 115; 112]] [100; 101; 115; 99] [[]] NoList, [TStr [110]]).
+Proof. vm_compute. reflexivity. Qed.
+(** when the @resources block is only written for a non-empty list, an explicitly empty list comes back undefined *)
+Definition x_res_read (res_defined : bool) (res : option (list (N * str * list str))) :=
+  res_read (fun t => t) (fun _ => true) N (fun s => match s with [c] => Some c | _ => None end)
+    (res_toks (x_cfg 2 res_defined) N (fun t => [t]) true res ++ [TBrClose]).
+Example c16_empty_resources_refuted :
+  x_res_read false (Some []) = Some (None, [TBrClose])
+  /\ x_res_read true (Some []) = Some (Some [], [TNl; TBrClose])
+  /\ x_res_read true (Some [(5, [109], [[65]]); (6, [110], [])]) = Some (Some [(5, [109], [[65]]); (6, [110], [])], [TNl; TBrClose]).
+Proof. repeat split; vm_compute; reflexivity. Qed.
+Definition empty_resources_need_block : bool :=
+  match x_res_read false (Some []), x_res_read true (Some []) with
+  | Some (None, _), Some (Some [], _) => true
+  | _, _ => false
+  end.
+
 (** * Binary database: tables and bit packings *)
 (** VALUE_TYPE_ORDER / FILE_TYPE_ORDER: the index written for an enum member reads back as that member
     and fits in 7 bits (the order list may contain a member twice; the last index is the one written). *)
@@ -134,8 +307,100 @@ Theorem c16_split_join : forall sep l, l <> [] -> Forall (fun x => mem_N sep x =
   split_sep sep (join_sep sep l) = l.
 Proof. exact split_join. Qed.
 
+(** * Binary database: whole definitions and blocks *)
+(** ent_serialise / ent_unserialise (Fmt/FgdBinEnt.v: header of six bytes, base names, keyvalues with spawnflag lists,
+    inputs, outputs, resources with tags) composed from the codecs above.  [enc]/[dec] is the string dictionary;
+    the side conditions on the tables are the instance obligations value_type_order_covers_enum,
+    file_type_order_covers_enum, entflags_layout, entity_types_have_distinct_flags.  For every definition the writer
+    accepts ([Some bs]) whose spawnflag masks are powers of two, whose SPAWNFLAGS keyvalues have no default and whose
+    other keyvalues have no flag list, the reader returns the definition and exactly the bytes that followed. *)
+Theorem c16_ent_bin_roundtrip : forall (A : Type) (enc : A -> option (N * N)) (dec : N * N -> option A),
+  (forall s p, enc s = Some p -> dec p = Some s) ->
+  forall (empty : A) (vt_order ft_order : list string),
+  (List.length vt_order < 128)%nat -> (List.length ft_order < 128)%nat ->
+  forall (list_type choices_type : string) (kinds : list (string * N)) (mask alias_bit : N),
+  entflags_ok (map snd kinds) mask alias_bit = true -> nodup_N (map snd kinds) = true -> nodup_str (map fst kinds) = true ->
+  forall e bs rest, ent_wf A empty list_type e ->
+  ent_ser A enc vt_order ft_order list_type choices_type kinds alias_bit e = Some bs ->
+  ent_unser A dec empty vt_order ft_order list_type kinds mask alias_bit (bs ++ rest) = Some (e, rest).
+Proof. exact ent_roundtrip. Qed.
+
+(** all definitions of a block, read back in the order of the block's class names, nothing left over *)
+Theorem c16_block_bin_roundtrip : forall (A : Type) (enc : A -> option (N * N)) (dec : N * N -> option A),
+  (forall s p, enc s = Some p -> dec p = Some s) ->
+  forall (empty : A) (vt_order ft_order : list string),
+  (List.length vt_order < 128)%nat -> (List.length ft_order < 128)%nat ->
+  forall (list_type choices_type : string) (kinds : list (string * N)) (mask alias_bit : N),
+  entflags_ok (map snd kinds) mask alias_bit = true -> nodup_N (map snd kinds) = true -> nodup_str (map fst kinds) = true ->
+  forall es bs rest, Forall (ent_wf A empty list_type) es ->
+  block_ser A enc vt_order ft_order list_type choices_type kinds alias_bit es = Some bs ->
+  block_unser A dec empty vt_order ft_order list_type kinds mask alias_bit (List.length es) (bs ++ rest) = Some (es, rest).
+Proof. exact block_roundtrip. Qed.
+
+(** the dictionary premise holds for BinStrDict: shared dictionary of exactly SHARED_STRINGS entries + the block's own
+    strings, indexes written as 16-bit little-endian (composition of c16_strdict_roundtrip and c16_le16_roundtrip) *)
+Theorem c16_block_dictionary_inverts : forall (A : Type) (eqb : A -> A -> bool), (forall a b, eqb a b = true <-> a = b) ->
+  forall base own shared, List.length base = shared ->
+  forall s p, dict_enc A eqb base own shared s = Some p -> dict_dec A base own p = Some s.
+Proof. exact dict_enc_dec. Qed.
+
+(** the file header ('FGD', version, block count, per block: class names, position, size) reads back, and reading
+    `size` bytes at `off` for the positions serialise() fills in returns every block's data *)
+Theorem c16_db_header_roundtrip : forall version positions0 bs rest, header_ser version positions0 = Some bs ->
+  header_unser version (bs ++ rest) = Some (positions0, rest).
+Proof. exact header_roundtrip. Qed.
+Theorem c16_block_positions_slices : forall (blocks : list (list N * list N)) pre post,
+  Forall2 (fun p blk => slice (pre ++ List.concat (map snd blocks) ++ post) (bp_off p) (bp_size p) = snd blk /\ bp_names p = fst blk)
+          (positions (N.of_nat (List.length pre)) blocks) blocks.
+Proof. exact positions_slices. Qed.
+
+(** the generated tables satisfy the premises of c16_ent_bin_roundtrip *)
+Definition bin_tables_ok : bool :=
+  (List.length value_type_order <? 128)%nat && (List.length file_type_order <? 128)%nat
+  && entflags_layout_ok && nodup_N (map snd type_flags) && nodup_str (map fst type_flags)
+  && mem_str bin_list_type value_type_order && mem_str bin_choices_type value_type_order
+  && negb (String.eqb bin_list_type bin_choices_type).
+
+(** the I/O skeletons of the eight (un)serialisers, as the model of Fmt/FgdBinEnt.v has them: kv = name, display name,
+    type|readonly byte, then for the list type a count and (power|default byte, name) per flag, otherwise the default;
+    io = name, type byte; ent = six header bytes (flags, then the counts of bases, keyvalues, inputs, outputs,
+    resources), the base names, the keyvalues, inputs, outputs, and per resource the type|has-tags byte, the tags if
+    flagged, the file name *)
+Fixpoint slist_eqb (a b : list string) : bool :=
+  match a, b with [], [] => true | x :: a', y :: b' => String.eqb x y && slist_eqb a' b' | _, _ => false end.
+Definition layout_is (fn : string) (expected : list string) : bool :=
+  match find (fun p => String.eqb (fst p) fn) bin_layouts with Some p => slist_eqb (snd p) expected | None => false end.
+Definition layout_kv_writer_ok : bool := layout_is "kv_serialise"
+  ["str"; "str"; "u8"; "if(_.type is ValueTypes.SPAWNFLAGS){"; "u8"; "loop(_.flags_list){"; "if(_){"; "raise"; "}"; "u8"; "str"; "}";
+   "return"; "}"; "str"; "if(_.type is ValueTypes.CHOICES){"; "raise"; "}"].
+Definition layout_kv_reader_ok : bool := layout_is "kv_unserialise"
+  ["str"; "str"; "u8"; "if(_ is ValueTypes.SPAWNFLAGS){"; "u8"; "loop(range(r3)){"; "u8"; "str"; "}"; "}else{"; "str"; "}"].
+Definition layout_io_ok : bool := layout_is "iodef_serialise" ["str"; "u8"] && layout_is "iodef_unserialise" ["str"; "u8"].
+Definition layout_ent_writer_ok : bool := layout_is "ent_serialise"
+  ["hdr:_.value,len(_.bases),len(_.keyvalues),len(_.inputs),len(_.outputs),len(_.resources)";
+   "loop(_.bases){"; "if(isinstance(_, str)){"; "str"; "}else{"; "str"; "}"; "}";
+   "loop(_._iter_attrs()){"; "loop(_.items()){"; "if(len(_) == 1){"; "if(not _){"; "if(isinstance(_, KVDef)){"; "kv"; "}else{";
+   "if(isinstance(_, IODef)){"; "io"; "}else{"; "raise"; "}"; "}"; "}"; "}"; "raise"; "}"; "}";
+   "loop(_.resources){"; "if(_.tags){"; "u8"; "tags"; "}else{"; "u8"; "}"; "str"; "}"].
+Definition layout_ent_reader_ok : bool := layout_is "ent_unserialise"
+  ["hdr6"; "loop(h1){"; "str"; "}"; "loop(h2){"; "kv"; "}"; "loop(h3){"; "io"; "}"; "loop(h4){"; "io"; "}";
+   "if(h5){"; "loop(h5){"; "u8"; "if(r1 & 128){"; "tags"; "}"; "str"; "}"; "}"].
+Definition header_formats_ok : bool :=
+  struct_is "_fmt_header" "<BI" && struct_is "_fmt_block_pos" "<IH" && struct_is "_fmt_32bit" "<I".
+
+(** the model instantiated with the generated tables, strings numbered (see [encN]/[decN]) *)
+Definition g_ent_ser : entdef N -> option (list N) :=
+  ent_ser N encN value_type_order file_type_order bin_list_type bin_choices_type type_flags (flag_value "IS_ALIAS").
+Definition g_ent_unser (canon : list N) (empty : N) : reader (entdef N) :=
+  ent_unser N (decN canon) empty value_type_order file_type_order bin_list_type type_flags (flag_value "MASK_TYPE") (flag_value "IS_ALIAS").
+Definition g_block_ser : list (entdef N) -> option (list N) :=
+  block_ser N encN value_type_order file_type_order bin_list_type bin_choices_type type_flags (flag_value "IS_ALIAS").
+Definition g_block_unser (canon : list N) (empty : N) (n : nat) : reader (list (entdef N)) :=
+  block_unser N (decN canon) empty value_type_order file_type_order bin_list_type type_flags (flag_value "MASK_TYPE") (flag_value "IS_ALIAS") n.
+
 (** * Lazy loading *)
-(** For every file (list of blocks) in which no class name occurs twice and every block has data, for
+(** [via] = how _parse_block replaces the stored base names ([lazy_via_get_ent] read from the source).
+    For every file (list of blocks) in which no class name occurs twice and every block has data, for
     every decoding function that yields one definition per class name, and for EVERY sequence of
     engine_def() queries (any order, any repetitions) on a fresh database, the answers are exactly the
     definitions obtained by decoding the whole database. *)
@@ -146,12 +411,90 @@ Theorem c16_lazy_equals_eager :
   (forall cs data, List.length (decode cs data) = List.length cs) ->
   forall (ent_bases : ent -> list name) (is_empty : bytes -> bool) (empty_bytes : bytes),
   is_empty empty_bytes = true ->
-  forall B : list (block name bytes),
+  forall (via : bool) (B : list (block name bytes)),
   NoDup (flat_map fst B) -> Forall (fun b => is_empty (snd b) = false) B ->
   forall f g qs,
-  fst (run_queries name ent bytes name_eqb decode ent_bases is_empty empty_bytes (S f) (init name ent bytes B) qs)
-  = map (eager name ent bytes name_eqb decode ent_bases is_empty empty_bytes B g) qs.
+  fst (run_queries name ent bytes name_eqb decode ent_bases is_empty empty_bytes via (S f) (init name ent bytes B) qs)
+  = map (eager name ent bytes name_eqb decode ent_bases is_empty empty_bytes via B g) qs.
 Proof. exact lazy_equals_eager. Qed.
+
+(** The same including the bases: when _parse_block resolves base names through get_ent ([via = true]) and the
+    fuel covers the number of blocks, every answer of every query sequence carries, for each stored base name,
+    exactly the definition of that class in the file — alias chains across blocks included — and that is
+    also what a look-up in the completely loaded database gives. *)
+Theorem c16_lazy_equals_eager_with_bases :
+  forall (name ent bytes : Type) (name_eqb : name -> name -> bool),
+  (forall a b, name_eqb a b = true <-> a = b) ->
+  forall (decode : list name -> bytes -> list ent),
+  (forall cs data, List.length (decode cs data) = List.length cs) ->
+  forall (ent_bases : ent -> list name) (is_empty : bytes -> bool) (empty_bytes : bytes),
+  is_empty empty_bytes = true ->
+  forall (via : bool) (B : list (block name bytes)),
+  NoDup (flat_map fst B) -> Forall (fun b => is_empty (snd b) = false) B ->
+  via = true -> forall f g qs, (List.length B <= f)%nat -> (List.length B <= g)%nat ->
+  fst (run_full name ent bytes name_eqb decode ent_bases is_empty empty_bytes via f (init name ent bytes B) qs)
+  = map (eager_full name ent bytes name_eqb decode ent_bases is_empty empty_bytes via B g) qs.
+Proof. exact lazy_full_equals_eager. Qed.
+
+Theorem c16_eager_with_bases_is_file_content :
+  forall (name ent bytes : Type) (name_eqb : name -> name -> bool),
+  (forall a b, name_eqb a b = true <-> a = b) ->
+  forall (decode : list name -> bytes -> list ent),
+  (forall cs data, List.length (decode cs data) = List.length cs) ->
+  forall (ent_bases : ent -> list name) (is_empty : bytes -> bool) (empty_bytes : bytes),
+  is_empty empty_bytes = true ->
+  forall (via : bool) (B : list (block name bytes)),
+  NoDup (flat_map fst B) -> Forall (fun b => is_empty (snd b) = false) B ->
+  via = true -> forall f c, (List.length B <= f)%nat ->
+  eager_full name ent bytes name_eqb decode ent_bases is_empty empty_bytes via B f c
+  = full_spec name ent bytes name_eqb decode ent_bases B c.
+Proof. exact eager_full_correct. Qed.
+
+(** if every stored base name is a class of the file, no base of any answer is left as a bare name *)
+Theorem c16_lazy_bases_all_resolved :
+  forall (name ent bytes : Type) (name_eqb : name -> name -> bool),
+  (forall a b, name_eqb a b = true <-> a = b) ->
+  forall (decode : list name -> bytes -> list ent),
+  (forall cs data, List.length (decode cs data) = List.length cs) ->
+  forall (ent_bases : ent -> list name) (is_empty : bytes -> bool) (empty_bytes : bytes),
+  is_empty empty_bytes = true ->
+  forall (via : bool) (B : list (block name bytes)),
+  NoDup (flat_map fst B) -> Forall (fun b => is_empty (snd b) = false) B ->
+  via = true -> forall f qs, (List.length B <= f)%nat ->
+  (forall c e b, spec name ent bytes name_eqb decode B c = Some e -> In b (ent_bases e) ->
+                 spec name ent bytes name_eqb decode B b <> None) ->
+  Forall (fun a => match a with
+                   | Some (e, rb) => List.length rb = List.length (ent_bases e) /\ Forall (fun x => x <> None) rb
+                   | None => True end)
+         (fst (run_full name ent bytes name_eqb decode ent_bases is_empty empty_bytes via f (init name ent bytes B) qs)).
+Proof. exact lazy_bases_all_resolved. Qed.
+
+(** Non-vacuity and refutation on one concrete file with a CROSS-BLOCK alias chain: block 0 holds class 1
+    (alias of 2), block 1 holds class 2 (alias of 3) and class 4, block 2 holds class 3.  Definitions are
+    (class, stored base names). *)
+Definition xb_ent : Type := (N * list N)%type.
+Definition xb_bases (c : N) : list N := match c with 1 => [2] | 2 => [3] | _ => [] end.
+Definition xb_decode (cs : list N) (data : N) : list xb_ent := map (fun c => (c, xb_bases c)) cs.
+Definition xb_file : list (block N N) := [([1], 10); ([2; 4], 11); ([3], 12)].
+Definition xb_run (via : bool) (qs : list N) : list (option (xb_ent * list (option xb_ent))) :=
+  fst (run_full N xb_ent N N.eqb xb_decode (fun e => snd e) (N.eqb 0) 0 via 3 (init N xb_ent N xb_file) qs).
+Example c16_cross_block_alias_resolved :
+  xb_run true [1; 4; 2; 1] = [Some ((1, [2]), [Some (2, [3])]); Some ((4, []), []); Some ((2, [3]), [Some (3, [])]);
+                              Some ((1, [2]), [Some (2, [3])])]
+  /\ NoDup (flat_map fst xb_file) /\ Forall (fun b => N.eqb 0 (snd b) = false) xb_file.
+Proof. split; [vm_compute; reflexivity|]. split; [repeat constructor; cbn; intuition discriminate|repeat constructor]. Qed.
+(** a look-up in `ent_map` that only succeeds for decoded entries (instead of get_ent) leaves the base of class 1
+    as a bare name when class 1 is asked for first — and differently when class 2 was asked for before: the
+    answer depends on the query order *)
+Example c16_map_lookup_refuted :
+  xb_run false [1] = [Some ((1, [2]), [None])]
+  /\ xb_run false [2; 1] = [Some ((2, [3]), [None]); Some ((1, [2]), [Some (2, [3])])].
+Proof. split; vm_compute; reflexivity. Qed.
+Definition map_lookup_breaks : bool :=
+  match xb_run false [1], xb_run true [1] with
+  | [Some (_, [None])], [Some (_, [Some _])] => true
+  | _, _ => false
+  end.
 
 (** and each answer is the entry at the class's position in its block *)
 Theorem c16_eager_is_file_content :
@@ -161,18 +504,19 @@ Theorem c16_eager_is_file_content :
   (forall cs data, List.length (decode cs data) = List.length cs) ->
   forall (ent_bases : ent -> list name) (is_empty : bytes -> bool) (empty_bytes : bytes),
   is_empty empty_bytes = true ->
-  forall B : list (block name bytes),
+  forall (via : bool) (B : list (block name bytes)),
   NoDup (flat_map fst B) -> Forall (fun b => is_empty (snd b) = false) B ->
-  forall f c, eager name ent bytes name_eqb decode ent_bases is_empty empty_bytes B f c
+  forall f c, eager name ent bytes name_eqb decode ent_bases is_empty empty_bytes via B f c
               = spec name ent bytes name_eqb decode B c.
 Proof. exact eager_correct. Qed.
 
-(** the recursive lookups of alias bases never run deeper than the number of blocks *)
+(** the recursive lookups of alias bases never run deeper than the number of blocks (the model marks a block as
+    decoded before its bases are looked up, as the source does) *)
 Theorem c16_base_lookups_terminate :
   forall (name ent bytes : Type) (name_eqb : name -> name -> bool)
          (decode : list name -> bytes -> list ent) (ent_bases : ent -> list name)
          (is_empty : bytes -> bool) (empty_bytes : bytes),
   is_empty empty_bytes = true ->
-  forall (B : list (block name bytes)) f qs, (List.length B <= f)%nat ->
-  oof _ _ _ (snd (run_queries name ent bytes name_eqb decode ent_bases is_empty empty_bytes f (init name ent bytes B) qs)) = false.
+  forall (via : bool) (B : list (block name bytes)) f qs, (List.length B <= f)%nat ->
+  oof _ _ _ (snd (run_queries name ent bytes name_eqb decode ent_bases is_empty empty_bytes via f (init name ent bytes B) qs)) = false.
 Proof. exact base_lookups_terminate. Qed.
